@@ -155,9 +155,18 @@ class Session:
         elif t == "eof":
             ep.eof(ev.get("how", "eof"))
         elif t == "adv":
-            self.loop.advance(1.0 / self.scale)
+            fd = bool(rev.get("faildrain")) and ep.writer is not None
+            if fd:
+                ep.writer.fail_drain = ConnectionResetError
+            try:
+                self.loop.advance(1.0 / self.scale)
+            finally:
+                if fd:
+                    ep.writer.fail_drain = None
             now = int(round(self.loop.time() * self.scale))
             ev = {"t": "adv", "now": now, "wake": now % self.scale == self.phase, "H": self.hb, "S": self.scale}
+            if fd:
+                ev["faildrain"] = True
         elif t == "tick":
             self.loop.advance(ev["dt"])
             ev = dict(ev, now=int(self.loop.time()), H=self.hb)
